@@ -9,11 +9,12 @@ Open Scope string_scope.
 (* 1. every forwarded operation reaches a handler that applies the same operation to the target with the same operands, and
       checks the permission of exactly the names the operation itself involves.
       F: facts of the tree; ms: the methods synthesized on the proxy's class; f: the operands; faithful (proofs/ProxyOpsP.v):
-        route ms o = RSend rq _  and  serve_request F truthy (rqmap f rq) = Ok sv  with  sv_act sv = direct truthy f o,
-                                                                                         sv_checks sv = direct_checks o
+        route ms o = RSend rq _  and  serve_request F truthy byval (rqmap f rq) = Ok sv  with  sv_act sv = direct truthy f o,
+                  sv_checks sv = direct_checks o,  sv_reflect sv = serve_reflect F byval f o (what the owner does after a
+                  NotImplemented: nothing, or on a tree with f_reflects the operand's reflected method against the target)
         or route ms o = RNoMethod and neither the class nor BaseNetref defines the special method (the interpreter answers). *)
-Theorem c02_routing_faithful : forall F A (f : nat -> A) (truthy : A -> bool) ms o,
-  forwarded o = true -> well_formed o = true -> exit_ok F (truthy (f 0%nat)) o = true -> faithful F A f truthy ms o.
+Theorem c02_routing_faithful : forall F A (f : nat -> A) (truthy byval : A -> bool) ms o,
+  forwarded o = true -> well_formed o = true -> exit_ok F (truthy (f 0%nat)) o = true -> faithful F A f truthy byval ms o.
 Proof. exact routing_faithful. Qed.
 Print Assumptions c02_routing_faithful.
 
@@ -41,13 +42,20 @@ Print Assumptions c02_public_and_default_names.
 (* 2. any sequence of permitted, forwarded operations run through proxies gives the same results (values, references,
       classes of exceptions) as run on a twin, and leaves the same heap and the same objects reached -- for every semantics
       [apply] of the objects, every operand list, every class shape [methods].
+      An operator step x OP a with a value operand a is the whole binary-operator protocol: the target's own method, then --
+      if that declines with NotImplemented -- the operand's reflected method given the other operand, then identity (==, !=)
+      or TypeError; on the twin the reflected method is given the target, through a proxy the caller's interpreter can only
+      give it the proxy (which no value's method accepts) unless the owner completes the protocol (f_reflects).
+      reflection_ok: on a tree without f_reflects no value's reflected method may accept one of the objects
+      (reflection_inert: true of lists, dicts, files ...; false of an int subclass -- 2e shows the restriction is necessary);
       reads_ok: on a tree whose __getattr__ repeats a failed read (f_getattr_repeats), failing reads must be repeatable;
       step_ok contains exit_ok: on a tree that does not deliver the exception class to __exit__ only exits without an
       exception are covered (2b, 2c show both restrictions are necessary on such a tree) *)
-Theorem c02_sequence_equiv : forall imm truthy_imm heap apply methods no_method conf F steps tw pw,
+Theorem c02_sequence_equiv : forall imm truthy_imm is_ni imm_bool heap apply methods no_method conf F steps tw pw,
   inv heap tw pw -> forallb (step_ok imm truthy_imm conf F) steps = true -> reads_ok imm heap apply F ->
-  match t_run imm truthy_imm heap apply methods no_method tw steps,
-        p_run imm truthy_imm heap apply methods no_method conf F pw steps with
+  reflection_ok imm is_ni heap apply F ->
+  match t_run imm truthy_imm is_ni imm_bool heap apply methods no_method tw steps,
+        p_run imm truthy_imm is_ni imm_bool heap apply methods no_method conf F pw steps with
   | Some (rs, tw'), Some (rs', pw') => rs = rs' /\ inv heap tw' pw'
   | None, None => True
   | _, _ => False
@@ -56,21 +64,21 @@ Proof. intros. now apply run_sim. Qed.
 Print Assumptions c02_sequence_equiv.
 
 (* 2a. an operation that needs a name the configuration does not permit is refused and changes nothing *)
-Theorem c02_refused_unchanged : forall imm truthy_imm heap apply methods no_method conf F tw pw s,
+Theorem c02_refused_unchanged : forall imm truthy_imm is_ni imm_bool heap apply methods no_method conf F tw pw s,
   inv heap tw pw -> forwarded (st_op imm s) = true -> well_formed (st_op imm s) = true ->
   exit_ok F (first_truthy imm truthy_imm (st_operands imm s)) (st_op imm s) = true ->
   permitted conf (direct_checks (st_op imm s)) = false ->
-  match p_step imm truthy_imm heap apply methods no_method conf F pw s with
+  match p_step imm truthy_imm is_ni imm_bool heap apply methods no_method conf F pw s with
   | Some (r, pw') => (exists e, r = Raise e) /\ pw_heap heap pw' = pw_heap heap pw /\ pw_slots heap pw' = pw_slots heap pw
   | None => True
   end.
-Proof. intros. now apply (refused_unchanged imm truthy_imm heap apply methods no_method conf F tw). Qed.
+Proof. intros. now apply (refused_unchanged imm truthy_imm is_ni imm_bool heap apply methods no_method conf F tw). Qed.
 Print Assumptions c02_refused_unchanged.
 
 (* 2b. on a tree that passes the class of the exception as a reference to the caller's object (the pinned tree), the
        target's __exit__ is told TypeError whenever the with block raised *)
-Theorem c02_exit_refuted : forall F ms A (f : nat -> A) truthy, f_ctxexit_delivers F = false -> truthy (f 0%nat) = true ->
-  exists rq w sv, route ms (OSpecial "__exit__" 3 []) = RSend rq w /\ serve_request F truthy (rqmap f rq) = Ok sv
+Theorem c02_exit_refuted : forall F ms A (f : nat -> A) truthy byval, f_ctxexit_delivers F = false -> truthy (f 0%nat) = true ->
+  exists rq w sv, route ms (OSpecial "__exit__" 3 []) = RSend rq w /\ serve_request F truthy byval (rqmap f rq) = Ok sv
     /\ sv_act sv = AExit TTypeError /\ direct truthy f (OSpecial "__exit__" 3 []) = AExit (TClass (f 0%nat)).
 Proof. exact exit_refuted. Qed.
 Print Assumptions c02_exit_refuted.
@@ -79,13 +87,35 @@ Theorem c02_failing_read_refuted : forall F, f_getattr_repeats F = true ->
   let tw := {| tw_heap := 0%nat; tw_slots := [0%nat] |} in
   let pw := {| pw_heap := 0%nat; pw_exported := [0%nat]; pw_slots := [0%nat] |} in
   step_ok unit (fun _ => true) conf_classic F w_step_read = true /\
-  option_map (fun x => tw_heap nat (snd x)) (t_run unit (fun _ => true) nat w_apply_count (fun _ => []) (fun _ => TypeError) tw [w_step_read]) = Some 1%nat /\
-  option_map (fun x => pw_heap nat (snd x)) (p_run unit (fun _ => true) nat w_apply_count (fun _ => []) (fun _ => TypeError) conf_classic F pw [w_step_read]) = Some 2%nat.
+  option_map (fun x => tw_heap nat (snd x))
+             (t_run unit (fun _ => true) (fun _ => false) (fun _ => tt) nat w_apply_count (fun _ => []) (fun _ => TypeError) tw [w_step_read]) = Some 1%nat /\
+  option_map (fun x => pw_heap nat (snd x))
+             (p_run unit (fun _ => true) (fun _ => false) (fun _ => tt) nat w_apply_count (fun _ => []) (fun _ => TypeError) conf_classic F pw [w_step_read]) = Some 2%nat.
 Proof. exact failing_read_runs_twice. Qed.
 Print Assumptions c02_failing_read_refuted.
 Theorem c02_failing_read_once_when_repaired : forall F o, f_getattr_repeats F = false -> forwarded o = true -> fallback F o = None.
 Proof. exact getattr_once. Qed.
 Print Assumptions c02_failing_read_once_when_repaired.
+(* 2e. on a tree whose owner does not complete the operator protocol (the pinned tree), x + a and x == a give a wrong answer
+       or TypeError as soon as the target's method declines the value a and a's reflected method would have accepted the
+       target: MyInt(3) + 5.0, MyInt(3) == 3.0 (here: values >= 100 play the floats, None plays NotImplemented) *)
+Theorem c02_reflection_refuted : forall F, f_reflects F = false ->
+  let tw := {| tw_heap := 3%nat; tw_slots := [0%nat] |} in
+  let pw := {| pw_heap := 3%nat; pw_exported := [0%nat]; pw_slots := [0%nat] |} in
+  forallb (step_ok (option nat) (fun _ => true) conf_classic F) w_steps_num = true /\
+  option_map fst (t_run _ (fun _ => true) w_ni w_bool nat w_apply_num (fun _ => ["__add__"]) (fun _ => TypeError) tw w_steps_num)
+    = Some [Ok (VImm _ (Some 8%nat)); Ok (VImm _ (Some 108%nat)); Ok (VImm _ (Some 1%nat))] /\
+  option_map fst (p_run _ (fun _ => true) w_ni w_bool nat w_apply_num (fun _ => ["__add__"]) (fun _ => TypeError) conf_classic F pw w_steps_num)
+    = Some [Ok (VImm _ (Some 8%nat)); Raise TypeError; Ok (VImm _ (Some 0%nat))].
+Proof. exact reflection_lost. Qed.
+Print Assumptions c02_reflection_refuted.
+Theorem c02_reflection_kept_when_repaired : forall F, f_reflects F = true ->
+  let tw := {| tw_heap := 3%nat; tw_slots := [0%nat] |} in
+  let pw := {| pw_heap := 3%nat; pw_exported := [0%nat]; pw_slots := [0%nat] |} in
+  option_map fst (p_run _ (fun _ => true) w_ni w_bool nat w_apply_num (fun _ => ["__add__"]) (fun _ => TypeError) conf_classic F pw w_steps_num)
+  = option_map fst (t_run _ (fun _ => true) w_ni w_bool nat w_apply_num (fun _ => ["__add__"]) (fun _ => TypeError) tw w_steps_num).
+Proof. exact reflection_kept. Qed.
+Print Assumptions c02_reflection_kept_when_repaired.
 (* 2d. the names in LOCAL_ATTRS are the proxy's own: reading one (except __doc__) or writing/deleting one never asks the
        target -- the reason `forwarded` excludes them *)
 Theorem c02_local_names_not_forwarded : forall ms,
@@ -101,6 +131,49 @@ Proof.
   apply in_map_iff in Hin. destruct Hin as (e & <- & He). rewrite (H e He). apply Bool.andb_false_r.
 Qed.
 Print Assumptions c02_base_methods_not_shadowed.
+
+(* 2f. class queries (p.__class__, hence isinstance(p, C); isinstance(x, p)).
+       - the caller has no class of the target's module-qualified name: the query is the forwarded read of "__class__" (so theorem 1
+         and 2 cover it: OGetAttr "__class__" is then an ordinary attribute read) -- permitted by classic only;
+       - the caller has one: the answer is that class, right exactly when a name means one class on both sides
+         (c02_class_query_by_name), wrong for namesakes (c02_class_query_wrong_for_namesakes);
+       - isinstance(x, p): the decision tree of __instancecheck__ (regenerated) in its locally decided cases; the case sent to
+         HANDLE_INSTANCECHECK is outside the model (_partial: the handler's body is cache-dependent and only exercised by the
+         harness) *)
+Theorem c02_class_query_forwarded_when_unknown : forall F A (f : nat -> A) truthy byval,
+  exists rq sv, class_query_route false = CAAsk rq /\ serve_request F truthy byval (rqmap f rq) = Ok sv
+    /\ sv_act sv = direct truthy f (OGetAttr "__class__") /\ sv_checks sv = [(PGet, "__class__")]
+    /\ permitted conf_classic (sv_checks sv) = true /\ permitted conf_public (sv_checks sv) = false
+    /\ permitted conf_default (sv_checks sv) = false.
+Proof. exact class_query_unknown. Qed.
+Print Assumptions c02_class_query_forwarded_when_unknown.
+Theorem c02_class_query_by_name : forall cls (name_of : cls -> string) callers,
+  (forall n c, callers n = Some c -> name_of c = n) -> (forall c c', name_of c = name_of c' -> c = c') ->
+  forall t c, class_query_by_name cls name_of callers t = Some c -> c = t.
+Proof. exact class_query_right. Qed.
+Print Assumptions c02_class_query_by_name.
+Theorem c02_class_query_wrong_for_namesakes :
+  exists (name_of : bool -> string) (callers : string -> option bool),
+    (forall n c, callers n = Some c -> name_of c = n) /\ class_query_by_name bool name_of callers true = Some false.
+Proof. exact class_query_wrong_for_namesakes. Qed.
+Print Assumptions c02_class_query_wrong_for_namesakes.
+Theorem c02_instancecheck_partial : forall asks resolved,
+  (forall a b c, instancecheck_route asks resolved a false b c = ICRaiseTypeError)
+  /\ instancecheck_route asks resolved true true true false = ICTrue
+  /\ instancecheck_route asks resolved true true true true = ICFalse
+  /\ (forall c, instancecheck_route asks resolved true true false c = ICSync "HANDLE_INSTANCECHECK")
+  /\ (forall b c, instancecheck_route asks true false true b c = ICLocalIsinstance).
+Proof. exact instancecheck_cases. Qed.
+Print Assumptions c02_instancecheck_partial.
+Theorem c02_instancecheck_unknown_class_refuted : forall b c, instancecheck_route false false false true b c = ICAttributeError.
+Proof. exact instancecheck_unknown_class_refuted. Qed.
+Print Assumptions c02_instancecheck_unknown_class_refuted.
+Theorem c02_instancecheck_unknown_class_when_repaired : forall F A (f : nat -> A) truthy byval b c,
+  instancecheck_route true false false true b c = ICSync "HANDLE_CALLATTR"
+  /\ exists sv, serve_request F truthy byval (rqmap f {| rq_handler := "HANDLE_CALLATTR"; rq_args := [WStr "__instancecheck__"; WTuple [0%nat]; WKw []] |}) = Ok sv
+       /\ sv_act sv = ACallAttr "__instancecheck__" [f 0%nat] [] /\ sv_checks sv = [(PGet, "__instancecheck__")].
+Proof. exact instancecheck_unknown_class_asks. Qed.
+Print Assumptions c02_instancecheck_unknown_class_when_repaired.
 
 (* 3. buffered iteration yields exactly the target's items in order and exhausts the target's iterator, for every
       chunk, factor, max_chunk >= 1; the counts requested are chunk, min(chunk*factor, max_chunk), ... ; at most one request
@@ -124,13 +197,23 @@ Theorem c02_tie : Gen_netref.local_attrs = local_attrs /\ Gen_netref.base_method
   /\ Gen_netref.getattribute_route = getattribute_route /\ Gen_netref.getattr_route = getattr_route Fgen
   /\ Gen_netref.setattr_route = setattr_route /\ Gen_netref.delattr_route = delattr_route
   /\ Gen_netref.make_method = make_method /\ Gen_netref.class_factory_skips_local = class_factory_skips_local
-  /\ Gen_netref.handler_bodies = handler_bodies Fgen /\ Gen_netref.buff_skel_gen = buff_skel_model.
+  /\ Gen_netref.handler_bodies = handler_bodies Fgen /\ Gen_netref.buff_skel_gen = buff_skel_model
+  /\ Gen_netref.reflected_table = reflect_table Fgen.
 Proof.
   destruct tie_local_attrs as [L _]. destruct tie_attribute_methods as (G1 & G2 & G3 & G4). destruct tie_make_method as [M _].
   destruct tie_class_factory as [C _].
-  repeat split; auto using tie_base_methods, tie_handler_bodies, tie_buffiter.
+  repeat split; auto using tie_base_methods, tie_handler_bodies, tie_buffiter, tie_reflected_table.
 Qed.
 Print Assumptions c02_tie.
+
+(* 4'. the module-level part of netref.py (which types share a pre-generated proxy class, generated from the type itself) and the
+       class-query code are the ones the model describes *)
+Theorem c02_tie_classes : Gen_netref.builtin_types = builtin_cached_types /\ Gen_netref.builtin_loop_as_expected = true
+  /\ Gen_netref.instancecheck_route = instancecheck_route Gen_netref.instancecheck_asks_owner
+  /\ Gen_netref.class_descriptor_owner_for_classes_instance_for_instances = true
+  /\ Gen_netref.class_found_by_module_qualified_name = true /\ getattribute_route "__class__" = ARClass.
+Proof. destruct tie_builtin_classes as [B1 B2]. destruct tie_class_queries as (Q1 & Q2 & Q3 & Q4). repeat split; auto. Qed.
+Print Assumptions c02_tie_classes.
 
 (* 4a. ... and so are the configurations: _check_attr, the default switches, prefix and safe_attrs, the classic update *)
 Theorem c02_tie_configurations :
@@ -149,8 +232,8 @@ Qed.
 Print Assumptions c02_tie_configurations.
 
 (* ---- non-vacuity ---- *)
-Definition F_pinned : facts := {| f_getattr_repeats := true; f_ctxexit_delivers := false |}.
-Definition F_repaired : facts := {| f_getattr_repeats := false; f_ctxexit_delivers := true |}.
+Definition F_pinned : facts := {| f_getattr_repeats := true; f_ctxexit_delivers := false; f_reflects := false |}.
+Definition F_repaired : facts := {| f_getattr_repeats := false; f_ctxexit_delivers := true; f_reflects := true |}.
 (* len(p) on a proxy of a list: a CALLATTR request that the peer answers with getattr(obj, "__len__")() *)
 Example ex_route_len : route ["__len__"; "__getitem__"; "append"] (OSpecial "__len__" 0 [])
   = RSend {| rq_handler := "HANDLE_CALLATTR"; rq_args := [WStr "__len__"; WTuple []; WKw []] |} WNone.
@@ -192,32 +275,42 @@ Example ex_sequence :
   let tw := {| tw_heap := [[1; 2]]%nat; tw_slots := [0%nat] |} in
   let pw := {| pw_heap := [[1; 2]]%nat; pw_exported := [0%nat]; pw_slots := [0%nat] |} in
   forallb (step_ok nat (fun n => negb (Nat.eqb n 0)) conf_classic F_pinned) ex_steps = true
-  /\ t_run nat (fun n => negb (Nat.eqb n 0)) ex_heap ex_apply ex_methods (fun _ => TypeError) tw ex_steps
+  /\ t_run nat (fun n => negb (Nat.eqb n 0)) (fun _ => false) (fun b => if b then 1%nat else 0%nat) ex_heap ex_apply ex_methods (fun _ => TypeError) tw ex_steps
      = Some ([Ok (VImm nat 0); Ok (VRef nat 1); Ok (VImm nat 0); Ok (VImm nat 4); Raise IndexError; Raise TypeError; Raise AttributeError]%nat,
              {| tw_heap := [[1; 2; 7]; [1; 2; 7; 9]]%nat; tw_slots := [0; 1]%nat |})
-  /\ option_map fst (p_run nat (fun n => negb (Nat.eqb n 0)) ex_heap ex_apply ex_methods (fun _ => TypeError) conf_classic F_pinned pw ex_steps)
-     = option_map fst (t_run nat (fun n => negb (Nat.eqb n 0)) ex_heap ex_apply ex_methods (fun _ => TypeError) tw ex_steps)
+  /\ option_map fst (p_run nat (fun n => negb (Nat.eqb n 0)) (fun _ => false) (fun b => if b then 1%nat else 0%nat) ex_heap ex_apply ex_methods (fun _ => TypeError) conf_classic F_pinned pw ex_steps)
+     = option_map fst (t_run nat (fun n => negb (Nat.eqb n 0)) (fun _ => false) (fun b => if b then 1%nat else 0%nat) ex_heap ex_apply ex_methods (fun _ => TypeError) tw ex_steps)
   /\ option_map (fun x => (pw_heap _ (snd x), pw_exported _ (snd x), pw_slots _ (snd x)))
-                (p_run nat (fun n => negb (Nat.eqb n 0)) ex_heap ex_apply ex_methods (fun _ => TypeError) conf_classic F_pinned pw ex_steps)
+                (p_run nat (fun n => negb (Nat.eqb n 0)) (fun _ => false) (fun b => if b then 1%nat else 0%nat) ex_heap ex_apply ex_methods (fun _ => TypeError) conf_classic F_pinned pw ex_steps)
      = Some ([[1; 2; 7]; [1; 2; 7; 9]], [0; 1], [0; 1])%nat.
 Proof. vm_compute. repeat split. Qed.
 Example ex_inv : inv ex_heap {| tw_heap := [[1; 2]]%nat; tw_slots := [0%nat] |} {| pw_heap := [[1; 2]]%nat; pw_exported := [0%nat]; pw_slots := [0%nat] |}.
 Proof. repeat split. intros o [<-|[]]. reflexivity. Qed.
 Example ex_reads_ok : reads_ok nat ex_heap ex_apply F_pinned.
 Proof. right. intros n h o h' H. cbn in *. injection H as <-. reflexivity. Qed.
+(* the hypothesis about reflected methods is satisfiable on the pinned tree (objects no value's method accepts: lists) and
+   vacuous on a repaired one *)
+Example ex_reflection_ok :
+  reflection_ok unit (fun _ => true) nat (fun a h o => match a with AReflected _ _ => (Ok (VImm unit tt), h) | _ => (Raise TypeError, h) end) F_pinned
+  /\ reflection_ok nat (fun _ => false) ex_heap ex_apply F_repaired.
+Proof. split; [right; intros rd a h o; exists tt; split; reflexivity | left; reflexivity]. Qed.
 (* refused under the default configuration: p.append is not a permitted name *)
 Example ex_refused :
-  option_map fst (p_step nat (fun n => negb (Nat.eqb n 0)) ex_heap ex_apply ex_methods (fun _ => TypeError) conf_default F_pinned
+  option_map fst (p_step nat (fun n => negb (Nat.eqb n 0)) (fun _ => false) (fun b => if b then 1%nat else 0%nat) ex_heap ex_apply ex_methods (fun _ => TypeError) conf_default F_pinned
                          {| pw_heap := [[1; 2]]%nat; pw_exported := [0%nat]; pw_slots := [0%nat] |}
                          {| st_target := 0; st_op := OSpecial "append" 1 []; st_operands := [PImm nat 7%nat] |})
   = Some (Raise AttributeError).
 Proof. reflexivity. Qed.
 Example ex_exit_pinned_vs_repaired :
-  (exists sv, serve_request F_pinned (fun _ : nat => true) {| rq_handler := "HANDLE_CTXEXIT"; rq_args := [WOp 0%nat] |} = Ok sv /\ sv_act sv = AExit TTypeError)
-  /\ (exists sv, serve_request F_repaired (fun _ : nat => true) {| rq_handler := "HANDLE_CTXEXIT"; rq_args := [WOp 0%nat] |} = Ok sv /\ sv_act sv = AExit (TClass 0%nat))
+  (exists sv, serve_request F_pinned (fun _ : nat => true) (fun _ : nat => true) {| rq_handler := "HANDLE_CTXEXIT"; rq_args := [WOp 0%nat] |} = Ok sv /\ sv_act sv = AExit TTypeError)
+  /\ (exists sv, serve_request F_repaired (fun _ : nat => true) (fun _ : nat => true) {| rq_handler := "HANDLE_CTXEXIT"; rq_args := [WOp 0%nat] |} = Ok sv /\ sv_act sv = AExit (TClass 0%nat))
   /\ exit_ok F_repaired true (OSpecial "__exit__" 3 []) = true /\ exit_ok F_pinned true (OSpecial "__exit__" 3 []) = false
   /\ exit_ok F_pinned false (OSpecial "__exit__" 3 []) = true.
 Proof. repeat split; eexists; split; reflexivity. Qed.
+Example ex_class_queries : class_query_route true = CACallersClassOfThatName
+  /\ class_query_by_name nat (fun n => if Nat.eqb n 0 then "builtins.list" else "m.C") (fun s => if String.eqb s "builtins.list" then Some 0%nat else None) 0%nat = Some 0%nat
+  /\ instancecheck_route false true false true false false = ICLocalIsinstance.
+Proof. repeat split. Qed.
 Example ex_buffiter : buffiter nat 2 5 2 (seq 0 12) = Ok (seq 0 12, [], [2; 4; 5; 5; 5]%Z)
   /\ buffiter nat 3 1 1 (seq 0 4) = Ok (seq 0 4, [], [3; 1; 1]%Z) /\ buffiter nat 10 1000 2 [] = Ok ([], [], [10%Z])
   /\ buffiter nat 50 7 3 (seq 0 60) = Ok (seq 0 60, [], [50; 7; 7; 7]%Z).
